@@ -8,6 +8,7 @@ from contracts import c02_remove_metabolites as RM
 from contracts import c02_rxn_add_metabolites as RAM
 from contracts import c02_add_reactions as AR
 from contracts import c02_remove_reactions_ctx as RRC
+from contracts import c02_remove_reactions_ctx_orph as RRO
 from contracts import c02_add_reactions_ctx as ARC
 from contracts import c12_rxn_arith as ARITH
 from contracts import c02_add_metabolites_ctx as AMC
@@ -37,9 +38,12 @@ def run(rep):
     run_property(rep, KEYS, more=[(RENAME_KEYS, c02_rename.HOOKS), (BOUNDARY_KEYS, c02_boundary.HOOKS), (KEYS_UG, U.HOOKS), (KEYS_AM, AM.HOOKS),
                                    (KEYS_RR, RR.HOOKS), (GR.KEYS, GR.HOOKS), (RM.KEYS, RM.HOOKS), (RAM.KEYS, RAM.HOOKS),
                                    (RAM.KEYS_SUB, RAM.HOOKS_SUB), (AR.KEYS, AR.HOOKS), (RRC.KEYS, RRC.HOOKS), (ARC.KEYS, ARC.HOOKS),
-                                   (AMC.KEYS, AMC.HOOKS), (RMC.KEYS, RMC.HOOKS), (RG.KEYS, RG.HOOKS), (RN.KEYS_VISIT, RN.HOOKS_VISIT), (RN.KEYS, RN.HOOKS)] + list(ARITH.GROUPS),
+                                   (AMC.KEYS, AMC.HOOKS), (RMC.KEYS, RMC.HOOKS), (RG.KEYS, RG.HOOKS), (RN.KEYS_VISIT, RN.HOOKS_VISIT), (RN.KEYS, RN.HOOKS)]
+                 + ([(RRO.KEYS, RRO.HOOKS)] if rep.tier == "thorough" else []) + list(ARITH.GROUPS),
                  lemmas=lambda: (U.lemmas() + RAM.lemmas() + RRC.lemmas() + ARC.lemmas() + ARITH.lemmas() + AMC.lemmas()
-                                 + RMC.lemmas() + RN.lemmas()), explanation=(
+                                 + RMC.lemmas() + RN.lemmas() + (RRO.lemmas() if rep.tier == "thorough" else [])), explanation=(
+        "(THOROUGH TIER ONLY - its heaviest loop obligation needs ~60 s and a retry seed, too unstable for the quick check:) "
+        "Model.remove_reactions with a context open AND remove_orphans=True (key Model.remove_reactions[context:orphans], contracts/c02_remove_reactions_ctx_orph.py; lists and models of any size, any depth of the context stack): the final state exactly as the no-context remove_orphans=True case proves it (in particular NO model pointer other than those of the listed reactions and of the orphaned metabolites changes: an orphaned gene keeps `_model`, a write to it fails the contract) plus the undo registrations of the remove_orphans=False in-context contract (same clauses) and additionally, complete both ways and nothing twice, all in the innermost context: one partial(self.genes.add, g) exactly for every gene g that left model.genes (registered after g's back-reference entry), one partial(grp.add_members, [g]) exactly for every group of the model that contained such a gene at entry (after the gene's own entry), and the RECORDED call self.remove_metabolites(m) exactly for every orphaned metabolite (an abstract call with an assumed effect; what it registers itself is the proved contract Model.remove_metabolites[context]); glue lemma undo-restores:genes-content (replaying the genes.add entries gives back the entry membership of model.genes; fails without the completeness clause). Inner loops carry an explicit frame for the heap fields _model / _reaction / _members (the engine does not check loop bodies against a loop's modifies). Preconditions: those of the two base contracts plus `no listed reaction is a gene of a listed reaction`; the lists returned by Model.get_associated_groups assumed free of duplicates at the call sites. "
         "Model.add_reactions with a context open (key Model.add_reactions[context]; lists, models and stoichiometries of any size, any depth of the context stack): the final state exactly as the no-context contract proves it (same formulas) PLUS the undo registrations as a ghost trace, all in the INNERMOST context, nothing twice: per added reaction r a block setattr(r, _model, None), then for every key x of r._metabolites at exit x._reaction.remove(r) - registered only where the x._reaction.add(r) it inverts changed the set - or the recorded call add_metabolites(x) (x joined; the callee's own registrations, ASSUMED: in a context it changes the state as its no-context contract says), then the recorded call r.update_genes_from_gpr() (its proved in-context case), blocks in the order of pruned, and last reactions.__isub__(pruned) registered after `reactions += pruned`; glue lemmas undo-restores (membership of model.reactions, _model of reactions, _reaction sets of the entry members of model.metabolites); stated precondition own-keys-do-not-list (a key of a to-be-added reaction that is a member of model.metabolites does not list it at entry: otherwise the unguarded else-branch registers a remove for a no-op add - not reachable through the public API at the repaired commit); the re-pointing of the stoichiometry keys has no inverse and needs none (the reaction is outside the model at entry and exit). "
         "Deductive part: the clauses `identifiers are unique` and `every listed object is the one found by looking up its "
         "identifier` hold because every model edit changes model.reactions/metabolites/genes/groups only through the DictList "
